@@ -1,0 +1,189 @@
+//go:build verif
+
+package gkvlite
+
+import (
+	"unsafe"
+)
+
+// This file is only compiled with -tags verif.  It gives a deterministic
+// simulator (outside this repository) schedule points and read-only
+// introspection.  Nothing here changes the behaviour of the package
+// unless VerifYield is set by the simulator.
+
+// VerifYield, when non-nil, is called at the verifYield() sites.
+var VerifYield func(site int)
+
+func verifYield(site int) {
+	if f := VerifYield; f != nil {
+		f(site)
+	}
+}
+
+// Yield sites.
+const (
+	VerifSiteGetPinned = iota + 1
+	VerifSiteWalkPinned
+	VerifSiteVisitPinned
+	VerifSiteTotalsPinned
+	VerifSiteSetBeforeCAS
+	VerifSiteSetAfterCAS
+	VerifSiteDelBeforeCAS
+	VerifSiteDelAfterCAS
+	VerifSiteRootDecRef
+	VerifSiteCloseColl
+	VerifSiteFlushPin
+	VerifSiteFlushWrite
+	VerifSiteFlushRoots
+	VerifSiteSnapshotColl
+	VerifSiteSetCollCAS
+	VerifSiteRemoveCollCAS
+	VerifSiteItemCAS
+	VerifSiteNodeSet
+	VerifSiteVisitUnwind
+	VerifSiteIterWake
+	VerifSiteIterDrain
+	VerifSiteMax
+)
+
+// VerifSiteNames maps a site number to a short name.
+var VerifSiteNames = map[int]string{
+	VerifSiteGetPinned:     "get-pinned",
+	VerifSiteWalkPinned:    "walk-pinned",
+	VerifSiteVisitPinned:   "visit-pinned",
+	VerifSiteTotalsPinned:  "totals-pinned",
+	VerifSiteSetBeforeCAS:  "set-before-cas",
+	VerifSiteSetAfterCAS:   "set-after-cas",
+	VerifSiteDelBeforeCAS:  "del-before-cas",
+	VerifSiteDelAfterCAS:   "del-after-cas",
+	VerifSiteRootDecRef:    "root-decref",
+	VerifSiteCloseColl:     "close-coll",
+	VerifSiteFlushPin:      "flush-pin",
+	VerifSiteFlushWrite:    "flush-write",
+	VerifSiteFlushRoots:    "flush-roots",
+	VerifSiteSnapshotColl:  "snapshot-coll",
+	VerifSiteSetCollCAS:    "setcoll-cas",
+	VerifSiteRemoveCollCAS: "removecoll-cas",
+	VerifSiteItemCAS:       "item-cas",
+	VerifSiteNodeSet:       "node-set",
+	VerifSiteVisitUnwind:   "visit-unwind",
+	VerifSiteIterWake:      "iter-wake",
+	VerifSiteIterDrain:     "iter-drain",
+}
+
+// VerifResetAlloc puts the package-global free lists and statistics in
+// their initial state, so that a simulated run does not depend on the
+// runs executed before it in the same process.
+func VerifResetAlloc() {
+	withAllocLocks(func() {
+		freeNodes = nil
+		freeNodeLocs = nil
+		freeRootNodeLocs = nil
+		allocStats = AllocStats{}
+	})
+}
+
+// VerifLoc is a persisted location (zero when not persisted).
+type VerifLoc struct {
+	Off int64
+	Len uint32
+}
+
+func verifLoc(p *ploc) VerifLoc {
+	if p.isEmpty() {
+		return VerifLoc{}
+	}
+	return VerifLoc{Off: p.Offset, Len: p.Length}
+}
+
+// VerifNode describes one cached node of a collection's current tree.
+type VerifNode struct {
+	ID                 uintptr
+	NumNodes, NumBytes uint64
+	Item               *Item // cached item, or nil
+	ItemLoc, NodeLoc   VerifLoc
+	Left, Right        *VerifNode // nil when the child is empty or not cached
+	LeftLoc, RightLoc  VerifLoc   // persisted location of the child, if any
+	LeftEmpty          bool
+	RightEmpty         bool
+	Mark               uintptr // node.next: reclaim mark or free-list link
+	Truncated          bool    // walk bound reached below this node
+}
+
+const verifMaxWalk = 1 << 20
+
+// VerifTree returns the cached part of the collection's current tree,
+// without loading anything and without side effects.  nil for an empty
+// tree or when the root node is not cached; the second result is the
+// persisted location of the root.
+func VerifTree(c *Collection) (*VerifNode, VerifLoc) {
+	c.rootLock.Lock()
+	r := c.root
+	c.rootLock.Unlock()
+	if r == nil || r.root == nil {
+		return nil, VerifLoc{}
+	}
+	budget := verifMaxWalk
+	return verifWalk(r.root, &budget), verifLoc(r.root.loc)
+}
+
+func verifWalk(nloc *nodeLoc, budget *int) *VerifNode {
+	if nloc == nil || nloc.node == nil {
+		return nil
+	}
+	n := nloc.node
+	v := &VerifNode{
+		ID:         uintptr(unsafe.Pointer(n)),
+		NumNodes:   n.numNodes,
+		NumBytes:   n.numBytes,
+		Item:       n.item.item,
+		ItemLoc:    verifLoc(n.item.loc),
+		NodeLoc:    verifLoc(nloc.loc),
+		LeftLoc:    verifLoc(n.left.loc),
+		RightLoc:   verifLoc(n.right.loc),
+		LeftEmpty:  n.left.isEmpty(),
+		RightEmpty: n.right.isEmpty(),
+		Mark:       uintptr(unsafe.Pointer(n.next)),
+	}
+	*budget--
+	if *budget <= 0 {
+		v.Truncated = true
+		return v
+	}
+	v.Left = verifWalk(&n.left, budget)
+	v.Right = verifWalk(&n.right, budget)
+	return v
+}
+
+// VerifFreeNodes returns the identities of the nodes currently on the
+// package-global free list (bounded walk).
+func VerifFreeNodes() map[uintptr]bool {
+	res := map[uintptr]bool{}
+	freeNodeLock.Lock()
+	defer freeNodeLock.Unlock()
+	for n := freeNodes; n != nil && len(res) < verifMaxWalk; n = n.next {
+		id := uintptr(unsafe.Pointer(n))
+		if res[id] {
+			break
+		}
+		res[id] = true
+	}
+	return res
+}
+
+// VerifRootRefs returns the reference count of the collection's current
+// version and whether that version has a chained newer version.
+func VerifRootRefs(c *Collection) (refs int64, chained bool) {
+	c.rootLock.Lock()
+	defer c.rootLock.Unlock()
+	if c.root == nil {
+		return 0, false
+	}
+	return c.root.refs, c.root.chainedRootNodeLoc != nil
+}
+
+// VerifAllocStats returns the package-global allocation statistics.
+func VerifAllocStats() (res AllocStats) {
+	withAllocLocks(func() { res = allocStats })
+	return res
+}
